@@ -63,12 +63,12 @@ func genReplay(g *Rng, tier string) *Plan {
 		case c == 1 || nresps == 0:
 			st := rpStep{Kind: "answer", Flow: g.Intn(nflows), RespIRT: "match", Layout: g.Intn(3), Encrypt: g.Bool(0.15)}
 			if g.Bool(0.35) {
-				st.RespIRT = Pick(g, "other", "empty", "near", "prev", "resolve-id")
+				st.RespIRT = Pick(g, "other", "empty", "near", "prev", "resolve-id", "case")
 			}
 			for q, nc := 0, g.PickW(1, 6, 2); q < nc; q++ { // 0, 1 or 2 subject confirmations
 				c := "match"
 				if g.Bool(0.25) {
-					c = Pick(g, "other", "empty", "near")
+					c = Pick(g, "other", "empty", "near", "case")
 				}
 				if st.RespIRT == "resolve-id" {
 					c = "resolve-id" // an IdP that stamps the artifact-resolution request's ID on everything it returns
@@ -84,7 +84,7 @@ func genReplay(g *Rng, tier string) *Plan {
 		case c == 2:
 			st := rpStep{Kind: "deliver", Resp: g.Intn(nresps), Entry: Pick(g, "xml", "xml", "post", "artifact", "artifact"), Set: Pick(g, rpSets...), ArtIRT: "this"}
 			if st.Entry == "artifact" && g.Bool(0.4) {
-				st.ArtIRT = Pick(g, "previous", "other", "empty", "near")
+				st.ArtIRT = Pick(g, "previous", "other", "empty", "near", "case")
 			}
 			steps = append(steps, st)
 		default:
@@ -131,6 +131,11 @@ func (t *rpTransport) RoundTrip(r *http.Request) (*http.Response, error) {
 		irt = ""
 	case "near":
 		irt = id + "0"
+	case "case":
+		irt = strings.ToUpper(id)
+		if irt == id {
+			irt = "ID" + id[2:]
+		}
 	}
 	inner := t.respEl
 	if t.lazy != nil {
@@ -222,6 +227,12 @@ func execReplay(t *testing.T, p *Plan) *Result {
 					return "id-of-nobody"
 				case "near":
 					return f.id[:len(f.id)-1]
+				case "case":
+					// the same characters in another letter case: request IDs are xs:ID values, compared exactly
+					if up := strings.ToUpper(f.id); up != f.id {
+						return up
+					}
+					return "ID" + f.id[2:]
 				case "prev":
 					if st.Flow > 0 {
 						return flows[st.Flow-1].id
